@@ -82,13 +82,15 @@ def run(res, tier):
         alpha = float(rng.choice([0.0, 0.5, 2.0])) if reg_method == 'tikhonov' else float(rng.choice([0.5, 2.0]))
         ratio = 1.0 if reg_method == 'tikhonov' else float(rng.choice([1.0, 0.5]))
         square = bool(rng.random() < 0.5) if reg_method != 'tikhonov' else False
+        # the flag as python bool, numpy bool or 0 / 1 (what a numpy-built parameter grid hands over)
+        square_given = [square, np.bool_(square), int(square), np.int64(square)][cid % 4]
         inv = INV[int(rng.integers(0, 7))] if cid % 2 == 0 else INV[cid // 2 % 7]
         try:
             if fam == 'edmd':
-                reg = L.LmiEdmd(alpha=alpha, ratio=ratio, reg_method=reg_method, inv_method=inv, square_norm=square,
+                reg = L.LmiEdmd(alpha=alpha, ratio=ratio, reg_method=reg_method, inv_method=inv, square_norm=square_given,
                                 solver_params=lmi.SOLVER)
             else:
-                reg = L.LmiDmdc(alpha=alpha, ratio=ratio, reg_method=reg_method, square_norm=square, solver_params=lmi.SOLVER)
+                reg = L.LmiDmdc(alpha=alpha, ratio=ratio, reg_method=reg_method, square_norm=square_given, solver_params=lmi.SOLVER)
             reg.fit(X, n_inputs=nu, episode_feature=True)
         except Exception as e:  # noqa
             dist['fit_error'] = dist.get('fit_error', 0) + 1
@@ -194,11 +196,12 @@ def run(res, tier):
         X, _, _ = lmi.linear_data(rng, 1, nu, kind='stable', n_eps=2, length=12, noise=0.05)
         Psi, Thp = pairs(X, nu)
         alpha, ratio, square = 1.0, (1.0 if j % 2 == 0 else 0.5), bool(j % 3 == 0)
+        square_given = [square, np.bool_(square), int(square)][j % 3]
         try:
             if fam == 'edmd':
-                reg = L.LmiEdmd(alpha=alpha, ratio=ratio, reg_method=rm, inv_method='chol', square_norm=square, solver_params=lmi.SOLVER)
+                reg = L.LmiEdmd(alpha=alpha, ratio=ratio, reg_method=rm, inv_method='chol', square_norm=square_given, solver_params=lmi.SOLVER)
             else:
-                reg = L.LmiDmdc(alpha=alpha, ratio=ratio, reg_method=rm, square_norm=square, solver_params=lmi.SOLVER)
+                reg = L.LmiDmdc(alpha=alpha, ratio=ratio, reg_method=rm, square_norm=square_given, solver_params=lmi.SOLVER)
             reg.fit(X, n_inputs=nu, episode_feature=True)
         except Exception:  # noqa
             dist['fit_error'] = dist.get('fit_error', 0) + 1
